@@ -1276,7 +1276,13 @@ func (s *manifestStore) Tag(ctx context.Context, desc ocispec.Descriptor, refere
 	}
 	defer rc.Close()
 
-	return s.push(ctx, desc, rc, ref.Reference)
+	// verify the fetched manifest against the descriptor before it is stored
+	// again under the reference
+	manifest, err := content.ReadAll(rc, desc)
+	if err != nil {
+		return err
+	}
+	return s.push(ctx, desc, bytes.NewReader(manifest), ref.Reference)
 }
 
 // PushReference pushes the manifest with a reference tag.
